@@ -105,6 +105,44 @@ impl H {
         if self.real.iter().len() != n {
             return Err("ExactSizeIterator length wrong".into());
         }
+        // the iterator through its adaptors (nth / skip / step_by / last / count go through
+        // Iterator::nth and friends, which an implementation may override)
+        let mut ks: Vec<usize> = vec![0, 1, 2, 3, n / 2, n.saturating_sub(1), n, n + 1];
+        ks.sort();
+        ks.dedup();
+        for k in ks {
+            let a = self.real.iter().nth(k).copied();
+            let b = self.model.get(k).copied();
+            if a != b {
+                return Err(format!("iter().nth({}) = {:?} but live items oldest-first are {:?}", k, a, self.model));
+            }
+            let sk: Vec<i32> = self.real.iter().skip(k).copied().collect();
+            let want: Vec<i32> = self.model.iter().skip(k).copied().collect();
+            if sk != want {
+                return Err(format!("iter().skip({}) = {:?} but live items oldest-first are {:?}", k, sk, self.model));
+            }
+        }
+        for step in 1..4usize {
+            let a: Vec<i32> = self.real.iter().step_by(step).copied().collect();
+            let b: Vec<i32> = self.model.iter().step_by(step).copied().collect();
+            if a != b {
+                return Err(format!("iter().step_by({}) = {:?} but live items oldest-first are {:?}", step, a, self.model));
+            }
+        }
+        if self.real.iter().last().copied() != self.model.last().copied() || self.real.iter().count() != n {
+            return Err(format!("iter().last()/count() = {:?}/{} but live items oldest-first are {:?}", self.real.iter().last(), self.real.iter().count(), self.model));
+        }
+        let mut it2 = self.real.iter();
+        let first = it2.next().copied();
+        if first != self.model.first().copied() || it2.len() != n.saturating_sub(1) {
+            return Err(format!("after next(): got {:?}, remaining length {} ; live items {:?}", first, it2.len(), self.model));
+        }
+        // positions far beyond any capacity are absent like capacity+1
+        for far in [usize::MAX, usize::MAX - 1, 1usize << 31, (1usize << 32) + 1, usize::MAX / 2 + 1] {
+            if self.real.get(far).is_some() || self.real.copy(far).is_some() || self.real.get_mut(far).is_some() {
+                return Err(format!("index {} reported as present", far));
+            }
+        }
         for i in 0..self.cap + 2 {
             let want = if i < n { Some(if self.queue { self.model[i] } else { self.model[n - 1 - i] }) } else { None };
             let g = self.real.get(i).copied();
